@@ -154,31 +154,68 @@ func ApplyPatch(d Doc, p map[string]interface{}) (Doc, error) {
 			}
 			kind, _ := om["op"].(string)
 			path, _ := om["path"].(string)
-			if !strings.HasPrefix(path, "/") || strings.Contains(path[1:], "/") || strings.Contains(path, "~") {
-				return nil, ErrUnsupported
+			// members of the document and members of object-valued members (depth <= 2), no arrays, no escapes
+			locate := func(ptr string) (map[string]interface{}, string, error) {
+				if !strings.HasPrefix(ptr, "/") || strings.Contains(ptr, "~") {
+					return nil, "", ErrUnsupported
+				}
+				toks := strings.Split(ptr[1:], "/")
+				switch len(toks) {
+				case 1:
+					return d, toks[0], nil
+				case 2:
+					parent, exists := d[toks[0]]
+					if !exists {
+						return nil, "", fmt.Errorf("missing parent %s", toks[0])
+					}
+					pm, ok := parent.(map[string]interface{})
+					if !ok {
+						return nil, "", ErrUnsupported
+					}
+					return pm, toks[1], nil
+				}
+				return nil, "", ErrUnsupported
 			}
-			name := path[1:]
+			parent, name, err := locate(path)
+			if err != nil {
+				return nil, err
+			}
 			switch kind {
 			case "add":
 				v, ok := om["value"]
 				if !ok {
 					return nil, ErrUnsupported
 				}
-				d[name] = CopyTree(v)
+				parent[name] = CopyTree(v)
 			case "replace":
 				v, ok := om["value"]
 				if !ok {
 					return nil, ErrUnsupported
 				}
-				if _, exists := d[name]; !exists {
+				if _, exists := parent[name]; !exists {
 					return nil, fmt.Errorf("replace: missing %s", name)
 				}
-				d[name] = CopyTree(v)
+				parent[name] = CopyTree(v)
 			case "remove":
-				if _, exists := d[name]; !exists {
+				if _, exists := parent[name]; !exists {
 					return nil, fmt.Errorf("remove: missing %s", name)
 				}
-				delete(d, name)
+				delete(parent, name)
+			case "copy":
+				// RFC 6902: the value at "from" is copied - source and copy are independent values afterwards
+				from, _ := om["from"].(string)
+				if from == path || strings.HasPrefix(path, from+"/") {
+					return nil, ErrUnsupported
+				}
+				fp, fn, err := locate(from)
+				if err != nil {
+					return nil, err
+				}
+				v, exists := fp[fn]
+				if !exists {
+					return nil, fmt.Errorf("copy: missing %s", from)
+				}
+				parent[name] = CopyTree(v)
 			default:
 				return nil, ErrUnsupported
 			}
